@@ -183,6 +183,23 @@ func finish(aEnc, rEnc, msg []byte, a, r *big.Int) []byte {
 	return append(append([]byte{}, rEnc...), ed.LEBytes(s, 32)...)
 }
 
+// finishMirror builds the sibling equations a verifier that compares too little accepts: S = ka - r (holds
+// for -R, same y coordinate), S = r - ka (holds for -A), S = -(r + ka) (holds for -R and -A).
+func finishMirror(aEnc, rEnc, msg []byte, a, r *big.Int, which int) []byte {
+	k := ed.HashModL(rEnc, aEnc, msg)
+	s := new(big.Int).Mul(k, a)
+	switch which {
+	case 0:
+		s.Sub(s, r)
+	case 1:
+		s.Sub(r, s)
+	default:
+		s.Add(s, r).Neg(s)
+	}
+	s.Mod(s, ed.L)
+	return append(append([]byte{}, rEnc...), ed.LEBytes(s, 32)...)
+}
+
 // message lengths far from the short ones: around SHA-512 blocks, around 1 KiB, 2 KiB, 4 KiB, and (one
 // in forty) around multiples of 64 KiB
 func genMsg(t *rapid.T) []byte {
@@ -219,11 +236,17 @@ func genBase(t *rapid.T) sigCase {
 	case 0: // honest
 		A, R := ed.B.Mul(a), ed.B.Mul(r)
 		aEnc, rEnc := A.Encode(), R.Encode()
+		if h.Pick(t, "mirror", 7, 1) == 1 {
+			return sigCase{"honest+mirror", aEnc, msg, finishMirror(aEnc, rEnc, msg, a, r, rapid.IntRange(0, 2).Draw(t, "mk"))}
+		}
 		return sigCase{"honest", aEnc, msg, finish(aEnc, rEnc, msg, a, r)}
 	case 1: // torsion-mixed A and/or R, any encoding
 		i, j := rapid.IntRange(0, 7).Draw(t, "ti"), rapid.IntRange(0, 7).Draw(t, "tj")
 		A, R := ed.B.Mul(a).Add(tor[i]), ed.B.Mul(r).Add(tor[j])
 		aEnc, rEnc := pickEnc(t, "aenc", A), pickEnc(t, "renc", R)
+		if h.Pick(t, "mirror", 7, 1) == 1 {
+			return sigCase{"torsion+mirror", aEnc, msg, finishMirror(aEnc, rEnc, msg, a, r, rapid.IntRange(0, 2).Draw(t, "mk"))}
+		}
 		return sigCase{"torsion", aEnc, msg, finish(aEnc, rEnc, msg, a, r)}
 	case 2: // small-order / non-canonical encodings: a = 0 and/or r = 0
 		i, j := rapid.IntRange(0, 7).Draw(t, "ti"), rapid.IntRange(0, 7).Draw(t, "tj")
@@ -323,8 +346,8 @@ func TestVerify(t *testing.T) {
 		Prop: "C01", Name: "verify", N: 5000,
 		Gen: genVerify, Check: checkVerify,
 		Require: []string{"honest/accept", "torsion/accept", "noncanonical/accept", "stdlib/accept", "torsion+S+jL/reject-S>=L", "honest+S+jL/reject-S>=L",
-			"honest+flip-S/reject-equation", "torsion+flip-pk/reject-A-decode", "honest+flip-R/reject-R-decode", "honest+siglen/reject-length", "random/reject-S>=L"},
-		Rule: "triples built from known scalars on an independent curve model: honest, A=aB+Ti / R=rB+Tj for all torsion pairs in every encoding (canonical, y+p, negative zero), small-order A and/or R, crypto/ed25519 signatures, then one mutation (S+jL j=1..15, bit flips in key/R/S/message, S top bits, signature length 0..70, message length, swapped halves, negated/off-curve key), plus random bytes; Verify must equal the literal ZIP-215 predicate evaluated on the model; non-trivial = not random bytes and (verdict decided by the group equation, or an S>=L / torsion / non-canonical case); distinct by triple",
+			"honest+flip-S/reject-equation", "torsion+flip-pk/reject-A-decode", "honest+flip-R/reject-R-decode", "honest+siglen/reject-length", "random/reject-S>=L", "honest+mirror/reject-equation"},
+		Rule: "triples built from known scalars on an independent curve model: honest, A=aB+Ti / R=rB+Tj for all torsion pairs in every encoding (canonical, y+p, negative zero), small-order A and/or R, crypto/ed25519 signatures, mirrored equations built from the secret scalars (S = ka-r, r-ka, -(r+ka): hold for -R and/or -A only), then one mutation (S+jL j=1..15, bit flips in key/R/S/message, S top bits, signature length 0..70, message length, swapped halves, negated/off-curve key), plus random bytes; Verify must equal the literal ZIP-215 predicate evaluated on the model; non-trivial = not random bytes and (verdict decided by the group equation, or an S>=L / torsion / non-canonical case); distinct by triple",
 	})
 }
 
